@@ -349,12 +349,17 @@ impl EigenTrustEngine {
             }
         }
 
-        // Apply multi-factor trust adjustments
+        // Apply multi-factor trust adjustments. A node nothing has been reported about
+        // gets the factor of an empty record rather than no factor at all: otherwise the
+        // first correct response reported for a peer multiplies its score by at most
+        // 0.4 and so lowers it.
+        let no_record_factor = self.compute_multi_factor_adjustment(&NodeStatistics::default());
         for (node, trust) in trust_vector.iter_mut() {
-            if let Some(stats) = node_stats.get(node) {
-                let factor = self.compute_multi_factor_adjustment(stats);
-                *trust *= factor;
-            }
+            let factor = match node_stats.get(node) {
+                Some(stats) => self.compute_multi_factor_adjustment(stats),
+                None => no_record_factor,
+            };
+            *trust *= factor;
         }
 
         // Apply time decay. The read guard must be released before the timestamp is
